@@ -132,7 +132,7 @@ func gen(t *rapid.T) Case {
 		c.FlapLo = float64(rapid.IntRange(0, 5).Draw(t, "flo")) / 10
 		c.FlapHi = c.FlapLo + float64(rapid.IntRange(0, 5).Draw(t, "fhi"))/10
 		if rapid.IntRange(0, 3).Draw(t, "fnever") == 0 {
-			c.FlapHi = 1.5 // a percentage of state changes cannot go above 100 % (150 % leaves room for any weighting): the alert never flaps
+			c.FlapHi = 1 // the largest accepted threshold; a percentage of state changes cannot go above 100 %: the alert never flaps
 		}
 	}
 	c.LevelField = rapid.Bool().Draw(t, "lf")
@@ -803,7 +803,7 @@ var assumptions = []string{
 	"events are observed by an alert.Handler registered on the alert's named topic; forwarded data by a log() sink below the alert node",
 	"level lambdas compare one integer field with a constant; in the independent-fields style a point may lack the field of one level condition: a condition that cannot be evaluated does not hold, the remaining levels are still considered (reset conditions always find their field)",
 	"batch alerts: the event time may be the time of any point that attains the event's level (OK/all(): the batch time or any point time) - the property does not fix the tie-break; when the implementation picks another accepted time than the reference, the rest of that history is not compared",
-	"flapping is checked by metamorphic relations only (events are a per-ID subsequence of the no-flapping events; forwarded levels equal the no-flapping levels) because its arithmetic is not part of the property statement; stateChangesOnly intervals are not combined with flapping; with a high threshold of 1.5 the alert cannot flap (the documentation defines the thresholds over the percentage of state changes, which cannot exceed 100 %; the margin covers the Nagios-style weighting of recent changes): such cases are compared exactly",
+	"flapping is checked by metamorphic relations only (events are a per-ID subsequence of the no-flapping events; forwarded levels equal the no-flapping levels) because its arithmetic is not part of the property statement; stateChangesOnly intervals are not combined with flapping; with the largest accepted high threshold 1.0 the alert cannot flap (the documentation defines the thresholds over the percentage of state changes, and flapping starts when it goes ABOVE the threshold; the implementation's weighted percentage stays below 1 - 0.2/(history-1)): such cases are compared exactly",
 	"an empty batch produces no event and no state change (pipeline docs: alerts are evaluated on the points of a batch)",
 }
 
